@@ -435,6 +435,18 @@ def check(ctx: Ctx) -> None:
                 ctx.violation("R3.4", "Parser.element:widening-range", PARSER, s.node,
                               "the widening step must range over exactly the lower limits that are given (not NaN)")
 
+    # ---------------- tokenizer semantics (interpreted) ------------------------------------------------
+    try:
+        from ._tok_interp import run as _tok_run
+        tprobs, tn = _tok_run(ctx, model)
+        ctx.instance("R3.5", f"Tokenizer interpreted on {tn} targeted strings: labels keep every interior character, white space between tokens is insignificant, %E numbers and the F marker are read back")
+        if not tprobs:
+            ctx.ok()
+        else:
+            ctx.violation("R3.5", "Tokenizer:semantics", TOK, model.fi(TOK, "Tokenizer.process").node, "the tokenizer does not read the emitter's text back — " + tprobs[0])
+    except AnalysisError as e:
+        ctx.note(f"tokenizer not interpretable ({e})")
+
     # ---------------- R3.8 state carried ------------------------------------------------------------
     _state_carried(ctx, model)
 
